@@ -143,6 +143,9 @@ def main():
     if args and args[0] == "--round2":
         outroot, rename = "/tmp/wt-out2", {"A": "C", "B": "D"}
         args = args[1:]
+    if args and args[0] == "--round5":
+        outroot, rename = "/tmp/wt-out5", {"A": "E", "B": "F"}
+        args = args[1:]
     if args and args[0] == "--harmless":
         return import_harmless(args[1:])
     if args and args[0] == "--area":
